@@ -21,7 +21,7 @@ from .sample import Sampler, mutants, with_trivia
 from .tools import CACHE, WORK, repo_hash, seed as get_seed, log, pmap, fresh_dir, rmtree, build_bins, Inconclusive
 from . import buckets
 
-VERSION = 8   # bump to invalidate cached campaigns when the machinery changes
+VERSION = 10   # bump to invalidate cached campaigns when the machinery changes
 
 PURE = dict(p_user_pred=0.0, p_assert=0.0)
 SIZES = {
@@ -65,43 +65,6 @@ def user_dependent(g: Grammar):
     return False
 
 
-def choice_variants(u: Unit):
-    """G[k]: the same grammar with one choice site replaced by one of its alternatives (commit removed)"""
-    out = []
-    sites = []
-    for r in u.g.rules:
-        if r.regex is not None:
-            for n in r.regex.walk():
-                if n.k == "choice":
-                    sites.append(n)
-    for si, site in enumerate(sites):
-        for k in range(len(site.ops)):
-            g2 = u.g.clone()
-            # locate the same site in the clone (same walk order)
-            j = 0
-            target = None
-            for r in g2.rules:
-                if r.regex is not None:
-                    for n in r.regex.walk():
-                        if n.k == "choice":
-                            if j == si:
-                                target = n
-                            j += 1
-            a = target.ops[k]
-            ops = [o for o in (a.ops if a.k == "concat" else [a]) if o.k != "commit"]
-            target.k = "paren"
-            from .model import concat as mk_concat
-            inner = ops[0] if len(ops) == 1 else N("concat", ops)
-            target.ops = [inner]
-            target.v = None
-            g2.text = None
-            v = Unit(f"{u.gid}v{si}_{k}", g2, dict(u.meta), variant_of=(u.gid, si, k))
-            v.lex = u.lex
-            v.twin = False
-            out.append(v)
-    return out
-
-
 def population(shard, nshards, tier, sd):
     """units of one shard"""
     sz = SIZES[tier]
@@ -138,11 +101,10 @@ def population(shard, nshards, tier, sd):
             u = Unit(f"b{shard}_{bi}", g, {"profile": "bucket", "bucket": name, "features": [], "inputs": inputs})
             u.twin = True
             units.append(u)
-    variants = []
     for u in units:
-        if u.meta.get("profile") != "bucket" and has_kind(u.g, ("choice",)):
-            variants.extend(choice_variants(u))
-    return units + variants
+        # C08 differential: code variants of the emitted parser with the first k attempts of a choice site disabled
+        u.want_variants = u.meta.get("profile") != "bucket" and has_kind(u.g, ("choice",))
+    return units
 
 
 # ---------------------------------------------------------------------------------------------
@@ -153,6 +115,9 @@ def make_inputs(u: Unit, rng, tier):
     """list of (entry, kind, tokens-with-trivia, base tokens (trivia-free), base_key)"""
     sz = SIZES[tier]
     g = u.g
+    if u.meta.get("bucket"):
+        rng = random.Random(u.meta["bucket"])      # what a bucket shows must not depend on VERIF_SEED
+        sz = SIZES["quick"]
     alphabet = [t for t in g.token_names if t not in set(g.skipped)]
     trivia = list(g.skipped) + ["Error"]
     s = Sampler(g)
@@ -211,36 +176,32 @@ def make_inputs(u: Unit, rng, tier):
 def make_jobs(units, rng, tier):
     jobs = []
     meta = {}
-    by_gid = {u.gid: u for u in units}
     inputs_of = {}
     for u in units:
         if not u.generated or u.compile_error:
-            continue
-        if u.variant_of:
             continue
         inputs_of[u.gid] = make_inputs(u, rng, tier)
     for u in units:
         if not u.generated or u.compile_error:
             continue
-        base = by_gid.get(u.variant_of[0]) if u.variant_of else u
-        if base is None or base.gid not in inputs_of:
-            continue
         ud = user_dependent(u.g)
-        for ino, (entry, kind, toks, basetoks, pairkey) in enumerate(inputs_of[base.gid]):
-            if u.variant_of and (kind.startswith("run") or kind == "exhaustive"):
-                continue
+        for ino, (entry, kind, toks, basetoks, pairkey) in enumerate(inputs_of[u.gid]):
             src = u.source_of(toks)
             modes = [("11", 1)] if not ud else [("00", 1), ("00", 2), ("11", 3), ("22", 4), ("12", 5)]
             if ud and (kind.startswith("run") or kind == "exhaustive"):
                 modes = modes[:2]
+            small = not (kind.startswith("run") or kind == "exhaustive")
             for (mode, sd) in modes:
-                for probed in ((False, True) if getattr(u, "twin", True) else (False,)):
-                    mod = u.gid + ("p" if probed else "")
+                tags = [False, True] if getattr(u, "twin", True) else [False]
+                if small and not (ud and mode == "00"):
+                    tags += [t for _, _, t in getattr(u, "variants", [])]
+                for tag in tags:
+                    mod = u.gid + ("p" if tag is True else (tag or ""))
                     jid = f"{mod}|{ino}|{mode}{sd}"
-                    # paired inputs (trivia variants, choice variants) share the callback-outcome stream
+                    # paired inputs (trivia variants, code variants) share the callback-outcome stream
                     hseed = int(hashlib.sha1(repr((entry, basetoks)).encode()).hexdigest()[:8], 16)
                     jobs.append((jid, mod, entry, sd * 7919 + hseed, mode, src))
-                    meta[jid] = (u.gid, probed, ino, mode, sd)
+                    meta[jid] = (u.gid, tag, ino, mode, sd)
     return jobs, meta, inputs_of
 
 
@@ -293,6 +254,11 @@ class Verdicts:
         self.inconclusive = defaultdict(list)
 
     def v(self, pid, sig, what, witness):
+        m = re.search(r"bucket=([\w-]+)", sig)
+        if m:
+            # a labelled bucket is one fixed grammar with fixed inputs: its signature is the bucket
+            what = f"[{sig}] {what}"
+            sig = "bucket=" + m.group(1)
         lst = self.viol[pid]
         if sum(1 for x in lst if x["sig"] == sig) < 3:
             lst.append({"sig": sig, "what": what, "witness": witness})
@@ -335,6 +301,7 @@ PROBLEM_SIG = [
     (r"C08 position after restore", "restore-position"),
     (r"C08 diagnostics after restore", "restore-diagnostics"),
     (r"C08 restore without", "restore-without-snapshot"),
+    (r"C08 active error state after restore", "restore-error-state"),
     (r"C08 action .* ran inside", "action-in-attempt"),
     (r"C08 error nodes", "created-deleted-error-balance"),
     (r"C08 `\w+` nodes", "created-deleted-balance"),
@@ -363,8 +330,6 @@ def evaluate(units, jobs, meta, inputs_of, results, incidents, tier):
     by_gid = {u.gid: u for u in units}
     # ---- C11: accepted => compiles; rejected => nothing written ---------------------------------
     for u in units:
-        if u.variant_of:
-            continue
         V.evals["C11"] += 1
         feats = u.meta.get("features", [])
         if len(feats) >= 3 or u.meta.get("profile") == "bucket":
@@ -395,9 +360,8 @@ def evaluate(units, jobs, meta, inputs_of, results, incidents, tier):
         jid = inc["job"][0]
         gid, probed, ino, mode, sd = meta[jid]
         u = by_gid[gid]
-        base = by_gid[u.variant_of[0]] if u.variant_of else u
-        entry, kind, toks, basetoks, _ = inputs_of[base.gid][ino]
-        wit = {"grammar": u.text, "entry": entry, "tokens": toks[:80], "ntokens": len(toks), "source": inc["job"][5][:300], "modes": mode, "twin": "probed" if probed else "pristine"}
+        entry, kind, toks, basetoks, _ = inputs_of[u.gid][ino]
+        wit = {"grammar": u.text, "entry": entry, "tokens": toks[:80], "ntokens": len(toks), "source": inc["job"][5][:300], "modes": mode, "twin": twin_name(probed)}
         if inc["kind"] == "died":
             V.v("C03", f"process-died:{grammar_shape(u)}:rc{inc['rc']}", f"arena process died (rc {inc['rc']}: stack overflow / abort / memory limit) while parsing", wit)
         else:
@@ -409,13 +373,14 @@ def evaluate(units, jobs, meta, inputs_of, results, incidents, tier):
         gid, probed, ino, mode, sd = meta[jid]
         res_by[gid][(probed, ino, mode, sd)] = rec
     for u in units:
-        if u.gid not in res_by:
+        if u.gid not in res_by or u.gid not in inputs_of:
             continue
-        base = by_gid[u.variant_of[0]] if u.variant_of else u
-        if base.gid not in inputs_of:
-            continue
-        evaluate_unit(u, base, inputs_of[base.gid], res_by, by_gid, V, tier)
+        evaluate_unit(u, u, inputs_of[u.gid], res_by, by_gid, V, tier)
     return V
+
+
+def twin_name(tag):
+    return "probed" if tag is True else ("pristine" if not tag else "variant " + tag)
 
 
 def first_tok_index(spans, start):
@@ -430,27 +395,22 @@ def evaluate_unit(u, base, inputs, res_by, by_gid, V, tier):
     trivia = set(g.skipped) | {"Error"}
     R = res_by[u.gid]
     shape = grammar_shape(u)
-    is_variant = u.variant_of is not None
     ud = user_dependent(g)
     has_choice = has_kind(g, ("choice",))
     has_tpred = any(n.k == "pred" and n.v == "t" for r in g.rules if r.regex is not None for n in r.regex.walk())
     bucket = u.meta.get("profile") == "bucket"
-    rs = None
-    ear = None
-    itp = None
-    if not is_variant:
-        rs = RefSets(g)
-        ear = Earley(rs)
-        itp = Interp(g, rs)
+    rs = RefSets(g)
+    ear = Earley(rs)
+    itp = Interp(g, rs)
     feats = set(u.meta.get("features", []))
     for (probed, ino, mode, sd), rec in R.items():
         entry, kind, toks, basetoks, pairkey = inputs[ino]
         wit = lambda extra=None: dict({"grammar": u.text, "entry": entry, "tokens": toks[:120], "ntokens": len(toks),
                                        "source": u.source_of(toks)[:400], "modes": mode, "seed": sd,
-                                       "twin": "probed" if probed else "pristine", "input_kind": kind}, **(extra or {}))
+                                       "twin": twin_name(probed), "input_kind": kind}, **(extra or {}))
         key = f"{u.gid}|{ino}|{mode}{sd}"
-        if is_variant:
-            continue
+        if isinstance(probed, str):
+            continue      # code variants are only read by the C08 differential below
         # ---------------- C03: totality ---------------------------------------------------------
         if not probed:
             V.evals["C03"] += 1
@@ -491,7 +451,7 @@ def evaluate_unit(u, base, inputs, res_by, by_gid, V, tier):
             if kind.startswith("run4096"):
                 V.counts["C03"]["runs_of_4096_tokens"] += 1
         # ---------------- twin agreement ------------------------------------------------------------
-        if probed:
+        if probed is True:
             other = R.get((False, ino, mode, sd))
             if other is not None and other.get("panic") is None and not other.get("error"):
                 if other.get("tree") != rec.get("tree") or other.get("diags") != rec.get("diags") or other.get("ev") != rec.get("ev"):
@@ -527,6 +487,8 @@ def evaluate_unit(u, base, inputs, res_by, by_gid, V, tier):
             V.nontrivial["C06"].add(key)
             V.counts["C06"]["muted_mismatches"] += max(0, rec.get("made", 0) - len(syn))
         for a, b in zip(syn, syn[1:]):
+            if has_choice or ud or has_tpred:
+                break       # C06 speaks about grammars without predicates, assertions and ordered choice
             if not (b[0] > a[0]) and b[0] >= 0:
                 V.v("C06", f"not-increasing:{shape}", f"syntax diagnostics not strictly increasing: {a[:2]} then {b[:2]}", wit({"diags": diags[:8]}))
                 break
@@ -638,30 +600,39 @@ def evaluate_unit(u, base, inputs, res_by, by_gid, V, tier):
                     V.v("C07", f"grouping:{u.meta.get('prec_shape', 'pratt')}", f"operator expression groups differently from the declared precedence/associativity", wit({"got": got[:400], "want": want[:400]}))
         elif kind == "expr" and u.meta.get("prec") and not nodiag:
             V.v("C07", f"expression-rejected:{u.meta.get('prec_shape', 'pratt')}", "operator expression (a sentence) draws a diagnostic", wit({"diags": diags[:4]}))
-        # ---------------- C08 differential: G vs G[k] ----------------------------------------------------
-        if has_choice and not big and not (ud and mode == "00"):
+        # ---------------- C08 differential: the same parser with the abandoned attempts switched off ---------
+        if has_choice and not big and not (ud and mode == "00") and getattr(u, "variants", None):
             prec = R.get((True, ino, mode, sd))
             if prec is not None and prec.get("alts") is not None and prec.get("panic") is None:
                 taken = defaultdict(set)
                 for a in prec["alts"].split():
                     s_, k_ = a.split(":")
                     taken[int(s_)].add(int(k_))
+                nalt = defaultdict(int)
+                for si, k, tag in u.variants:
+                    nalt[si] = max(nalt[si], k)
                 for si, ks in taken.items():
-                    if len(ks) != 1 or -1 in ks:
+                    if len(ks) != 1:
                         continue
                     k = next(iter(ks))
-                    vgid = f"{u.gid}v{si}_{k}"
-                    vr = res_by.get(vgid, {}).get((False, ino, mode, sd))
-                    if vr is None or vr.get("panic") is not None or vr.get("error"):
+                    if k == -1:
+                        k = nalt[si]       # nothing predicted: same path as going straight to the last alternative
+                    if k == 0:
+                        continue
+                    vr = R.get((f"v{si}_{k}", ino, mode, sd))
+                    if vr is None or vr.get("error"):
                         continue
                     V.counts["C08"]["differential_comparisons"] += 1
-                    vu = by_gid[vgid]
-                    vt = strip_trivia(vr["tree"], set())
-                    gt = strip_trivia(rec["tree"], set())
-                    if vt != gt or vr["diags"] != diags:
-                        V.v("C08", f"differs-from-chosen-alternative:{shape}", f"choice site {si} took alternative {k}; the same grammar with the choice replaced by that alternative behaves differently", wit({"choice_tree": gt[:400], "direct_tree": vt[:400], "choice_diags": diags[:5], "direct_diags": vr["diags"][:5], "variant_grammar": vu.text}))
+                    if vr.get("panic") is not None:
+                        V.v("C08", f"variant-panics:{shape}", f"with the abandoned attempts of choice site {si} switched off the parser panics: {vr['panic'][:80]}", wit())
+                        continue
+                    if n_restore or rec["st"][6]:
+                        pass
+                    acts = lambda r: [e for e in r.get("ev", "").split() if e.startswith("A:")]
+                    if vr["tree"] != rec["tree"] or vr["diags"] != diags or acts(vr) != acts(rec):
+                        V.v("C08", f"differs-from-chosen-alternative:{shape}", f"choice site {si} finally took alternative {k}; the same parser with the earlier attempts switched off gives a different tree / diagnostics / action sequence", wit({"choice_tree": rec["tree"][:400], "direct_tree": vr["tree"][:400], "choice_diags": diags[:5], "direct_diags": vr["diags"][:5], "choice_ev": rec.get("ev", "")[:200], "direct_ev": vr.get("ev", "")[:200]}))
     # samples
-    if not is_variant and len(V.samples["arena"]) < 3:
+    if len(V.samples["arena"]) < 3:
         V.samples["arena"].append({"grammar": u.text, "features": u.meta.get("features"), "inputs": [" ".join(i[2][:20]) for i in inputs[:4]]})
 
 
@@ -685,15 +656,15 @@ def _worker(args):
     results, incidents = arena.run(jobs)
     t2 = time.time()
     V = evaluate(units, jobs, meta, inputs_of, results, incidents, tier)
-    V.counts["arena"]["grammars"] += sum(1 for u in units if not u.variant_of)
-    V.counts["arena"]["choice_variants"] += sum(1 for u in units if u.variant_of)
+    V.counts["arena"]["grammars"] += len(units)
+    V.counts["arena"]["code_variants"] += sum(len(getattr(u, "variants", [])) for u in units)
     V.counts["arena"]["jobs"] += len(jobs)
     V.counts["arena"]["results"] += len(results)
     V.counts["arena"]["build_s"] += int(t1 - t0)
     V.counts["arena"]["run_s"] += int(t2 - t1)
     V.counts["arena"]["eval_s"] += int(time.time() - t2)
     for u in units:
-        if not u.variant_of:
+        if True:
             for f in u.meta.get("features", []):
                 V.counts["features"][f] += 1
             V.counts["profiles"][u.meta.get("profile", "?")] += 1
